@@ -356,7 +356,7 @@ def run(tier, seed):
     coverage = {
         "evaluations": evaluations,
         "distinct_nontrivial": len(distinct),
-        "rule": ("one evaluation = one simulated run = one fresh process executing a seeded history of 4-16 operations (one run in forty: 48-197 operations) (new_input / drop_input / refill_input (same String overwritten in place) / parse via "
+        "rule": ("one evaluation = one simulated run = one fresh process executing a seeded history of 4-16 operations (one run in forty: 48-197, one in four hundred: 1500-3000 operations) (new_input / drop_input / refill_input (same String overwritten in place) / parse via "
                  "try_parse|try_parse_partial|try_check|try_check_partial on &str|&String|Position|Span / reparse / clone / drop_result) on 1-3 baton-scheduled OS threads "
                  "against the derive-generated parsers of the corpus (corpus/index.txt); distinct_nontrivial = number of distinct (variant, digest of the history prefix, operation) "
                  "tuples whose operation was preceded in its run by an operation that used the stack grammar, failed, or freed an input object"),
